@@ -783,11 +783,75 @@ func c09(r *core.Run) {
 		r.Unres("S6", "Mux.<path>", "cannot resolve the path field (returned by Mux.Path)")
 		return
 	}
-	for _, ac := range core.FieldAccesses(root, func(f core.Field) bool { return f == pathF }) {
-		if ac.Kind != "load" {
-			continue
+	// sources of a possibly empty path: loads of the field, and results of the package's functions that
+	// return such a value (Path, FullPath - whose mergePattern of two possibly empty parts is possibly empty)
+	var pathFns map[*ssa.Function]bool
+	var isPathVal func(v ssa.Value, d int) bool
+	isPathVal = func(v ssa.Value, d int) bool {
+		if d > 4 {
+			return false
 		}
-		v := ac.Instr.(ssa.Value)
+		v = core.Strip(v)
+		if f, ok := core.LoadedField(v); ok && f == pathF {
+			return true
+		}
+		if c, ok := v.(*ssa.Call); ok {
+			cal := c.Common().StaticCallee()
+			if cal != nil && pathFns[cal] {
+				return true
+			}
+			if strings.HasSuffix(core.CalleeName(c), "mergePattern") {
+				// empty iff every part is empty: a part that is never empty makes the result non-empty
+				for _, a := range c.Common().Args {
+					if f2, ok := core.LoadedField(core.Strip(a)); ok && f2 != pathF && strings.HasSuffix(f2.Name, "mountp") {
+						continue // the mount point: empty only together with "no parent"
+					}
+					if !isPathVal(a, d+1) {
+						return false
+					}
+				}
+				return true
+			}
+		}
+		return false
+	}
+	pathFns = map[*ssa.Function]bool{}
+	for changed := true; changed; {
+		changed = false
+		for _, f := range root {
+			if pathFns[f] || f.Signature.Results().Len() != 1 || types.TypeString(f.Signature.Results().At(0).Type(), nil) != "string" {
+				continue
+			}
+			for _, ret := range core.Returns(f) {
+				for _, src := range phiSources(ret.Results[0]) {
+					if isPathVal(src.V, 0) && !pathFns[f] {
+						pathFns[f] = true
+						changed = true
+					}
+				}
+			}
+		}
+	}
+	type pathSrc struct {
+		v  ssa.Value
+		in ssa.Instruction
+		fn *ssa.Function
+	}
+	var pathSrcs []pathSrc
+	for _, ac := range core.FieldAccesses(root, func(f core.Field) bool { return f == pathF }) {
+		if ac.Kind == "load" {
+			pathSrcs = append(pathSrcs, pathSrc{ac.Instr.(ssa.Value), ac.Instr, ac.Fn})
+		}
+	}
+	for _, f := range root {
+		for _, c := range core.Calls(f) {
+			if cv, ok := c.(*ssa.Call); ok && c.Common().StaticCallee() != nil && pathFns[c.Common().StaticCallee()] {
+				pathSrcs = append(pathSrcs, pathSrc{cv, cv, f})
+			}
+		}
+	}
+	for _, ac := range pathSrcs {
+		v := ac.v
 		if v.Referrers() == nil {
 			continue
 		}
@@ -811,10 +875,10 @@ func c09(r *core.Run) {
 			}
 			return false
 		}
-		nonEmpty := nonEmptyAt(ac.Instr)
+		nonEmpty := nonEmptyAt(ac.in)
 		for _, rf := range *v.Referrers() {
 			nonEmpty := nonEmpty || nonEmptyAt(rf)
-			fn := core.FuncName(ac.Fn)
+			fn := core.FuncName(ac.fn)
 			switch x := rf.(type) {
 			case *ssa.Call:
 				name := core.CalleeName(x)
@@ -824,7 +888,7 @@ func c09(r *core.Run) {
 				}
 				// a helper of the package that itself only merges / measures / compares the value it is
 				// handed (e.g. a panic-message builder calling mergePattern)
-				if cal := x.Common().StaticCallee(); cal != nil && len(cal.Blocks) > 0 && cal.Pkg == ac.Fn.Pkg {
+				if cal := x.Common().StaticCallee(); cal != nil && len(cal.Blocks) > 0 && cal.Pkg == ac.fn.Pkg {
 					okAll := true
 					for i, a := range x.Common().Args {
 						if a == v && (i >= len(cal.Params) || !onlyMergedOrMeasured(cal.Params[i], 0)) {
